@@ -5,8 +5,10 @@ P (string theory; for EVERY identifier label, incl. labels that begin with input
    INPUT(..), OUTPUT(..), comment/blank); _parse_name_gate splits a printed gate line into exactly (label, body);
    _process_input_gate / _process_output_gate recover exactly the label. The printed forms are those of
    Gate.format_gate / Circuit.format_circuit (checked by symbolic execution of format_gate on a symbolic label).
+   _process_operator_gate (real constructor, the two string parsers replaced by their results): for every operator name
+   incl. BUFF / vdd exactly one gate is stored with the label, the denoted gate type and the operands in textual order.
 B: whole-text round trips and free-form layouts on enumerated circuits (vlib/bounded/C11.py), which also cover
-   operand splitting and the operator dispatch."""
+   operand splitting (_parse_operator_gate)."""
 import z3
 
 from .. import env
@@ -160,22 +162,92 @@ class Decl(Contract):
         return Contract.on_raise(self, it, ctx, exc, st)
 
 
+DISPATCH = {'NOT': ('NOT', [1]), 'AND': ('AND', [2, 3]), 'NAND': ('NAND', [2, 3]), 'OR': ('OR', [2, 3]), 'NOR': ('NOR', [2, 3]), 'XOR': ('XOR', [2, 3]),
+            'NXOR': ('NXOR', [2, 3]), 'GEQ': ('GEQ', [2]), 'GT': ('GT', [2]), 'LEQ': ('LEQ', [2]), 'LT': ('LT', [2]), 'LNOT': ('LNOT', [2]), 'RNOT': ('RNOT', [2]),
+            'LIFF': ('LIFF', [2]), 'RIFF': ('RIFF', [2]), 'IFF': ('IFF', [1]), 'BUFF': ('IFF', [1]), 'ALWAYS_TRUE': ('ALWAYS_TRUE', [0, 1]),
+            'ALWAYS_FALSE': ('ALWAYS_FALSE', [0, 1]), 'VDD': ('ALWAYS_TRUE', [0])}
+
+
+class Dispatch(Contract):
+    """_process_operator_gate on a gate line whose two parsers (proved separately) returned (label, body) and (OPERATOR,
+    [operands]): exactly one gate is stored — label, the gate type the operator name denotes (incl. the BUFF / vdd aliases),
+    the operands in their textual order. Labels are arbitrary; the parser object is built by the real constructor."""
+    relpath, qualname = BENCH, 'AbstractBenchParser._process_operator_gate'
+
+    def __init__(self, op, arity):
+        self.op, self.arity = op, arity
+        self.name = f'_process_operator_gate/{op}/{arity}operands'
+
+    def setup(self, it, ctx):
+        from ..pyvc.values import LabelSort
+        from ..pyvc.interp import Model
+        m = it.load_module('cirbo.core.parser.bench')
+        o = it.call(m.env['BenchToCircuit'], [], {})
+        got = []
+
+        class CircuitSink(Model):
+            def m_getattr(self_, it_, name):
+                if name == '_emplace_gate':
+                    def emplace(*a, **k):
+                        got.append((a, k))
+                    return Native('sink._emplace_gate', emplace)
+                raise Unsupported('circuit.' + name)
+        o.fields['_circuit'] = CircuitSink()
+        L = z3.Const('L', LabelSort)
+        ops = [z3.Const(f'a{i}', LabelSort) for i in range(self.arity)]
+        body = 'vdd' if self.op == 'VDD' else 'XYZ(...)'
+        h1 = lambda it_, fv, args, kwargs: (Sym(L), body)
+        h2 = lambda it_, fv, args, kwargs: (self.op, VList([Sym(x) for x in ops]))
+        for cls in ('AbstractBenchParser', 'BenchToCircuit'):
+            it.contracts[BENCH + f'::{cls}._parse_name_gate'] = h1
+            it.contracts[BENCH + f'::{cls}._parse_operator_gate'] = h2
+        return [o, 'ignored: the two parsers are replaced by their results'], {}, {'L': L, 'ops': ops, 'got': got}
+
+    def post(self, it, ctx, result, st):
+        got, L, ops = st['got'], st['L'], st['ops']
+        yield ('exactly-one-gate-stored', z3.BoolVal(len(got) == 1))
+        if len(got) != 1:
+            return
+        a, k = got[0]
+        names = ('label', 'gate_type', 'operands')
+        vals = dict(zip(names, a))
+        vals.update(k)
+        want_type, _ = DISPATCH[self.op]
+        gt = vals.get('gate_type')
+        yield ('label', it.label_term(vals.get('label')) == L, {'witness': 'dispatch'})
+        yield ('gate-type-of-the-operator-name', z3.BoolVal(getattr(gt, 'name', None) == want_type or (isinstance(gt, Obj) and gt.fields.get('_name') == want_type)), {'witness': 'dispatch-table'})
+        opv = vals.get('operands', ())
+        opl = list(opv) if isinstance(opv, tuple) else list(it.iterate(opv))
+        n_want = 0 if want_type in ('ALWAYS_TRUE', 'ALWAYS_FALSE') else len(ops)
+        yield ('operand-count', z3.BoolVal(len(opl) == n_want), {'witness': 'dispatch'})
+        if len(opl) == n_want:
+            for j in range(n_want):
+                yield (f'operand{j}-in-textual-order', it.label_term(opl[j]) == ops[j], {'witness': 'operand-order'})
+
+
 def run(rep):
     quick = env.TIER != 'thorough'
     rep.trusted_base = list(STD_TRUSTED) + ['axioms of str.strip / str.find / slicing / upper as encoded in vlib/pyvc/lib.py (string theory of z3 and cvc5)']
     for a in STD_ASSUME:
         rep.assume(a)
-    rep.assume('operand splitting (_parse_operator_gate), the operator dispatch table and whole texts are covered by the bounded stand-in only (split/join chains are not decided by the string solvers)')
+    rep.assume('operand splitting (_parse_operator_gate: find / slice / strip / split chains) and whole texts are covered by the bounded stand-in only: an attempt to verify it in the string theories '
+               '(witness decomposition for split, solver-aided constant folding for upper) left every obligation undecided at 160 s in z3 and cvc5 and was dropped; '
+               'the operator dispatch (_process_operator_gate with the two parsers replaced by their results) is proved for every operator name incl. the BUFF / vdd aliases')
     it = new_interp()
     it.label_or_str = lambda v: v.t if isinstance(v, Sym) else z3.StringVal(v)
     pv = Prover(rep, it, 'C11')
     cs = [Classify('gate', b) for b in BODIES] + [Classify('input'), Classify('output'), Classify('comment'), Classify('blank')]
     cs += [ParseName(b) for b in BODIES[:4]] + [ParseName('AND(a, b)', '='), ParseName('OR(x, y)', '  =   ')]
     cs += [Decl('input'), Decl('output'), Decl('input', ')\n'), Decl('output', ') ')]
+    disp = [Dispatch(op, ar) for op, (_, ars) in DISPATCH.items() for ar in ars]
     for c in cs:
         it.contracts.clear()
         pv.run_contract(c)
     it.string_mode = False
+    for c in disp:
+        it.contracts.clear()
+        pv.run_contract(c)
+    it.contracts.clear()
     a = z3.String('a')
     canary(rep, pv, 'C11/canary/identifier-has-no-dot', [ident(a)], z3.Not(z3.Contains(a, z3.StringVal('.'))))
     refuted = pv.discharge(env.NPROC)
